@@ -37,6 +37,9 @@ def direct_cases(ctx):
     for v in SUPPORTED_VERSIONS:
         yield {"req": v}
     yield {"req": "__absent__"}
+    # no version named, in every shape the envelope allows: params without the member, an empty object, null, no params at all
+    for shape in ("empty", "null", "missing"):
+        yield {"req": "__absent__", "params_shape": shape}
     malformed = ["", " ", "2025-6-18", "2025-06-18 ", " 2025-06-18", "2025/06/18", "20250618", "latest", "draft",
                  "2025-06-18\n", "2025-06-18T00:00:00Z", "２０２５-06-18", "2025-06-1８", "v2025-06-18", "2025-06", "null",
                  "9999-99-99", "0000-00-00", "2025-13-45", "2025-06-18-01", "2025.06.18", "DRAFT-2025-v2", "1.0", "2.0"]
@@ -143,8 +146,15 @@ def run(ctx):
             params: Dict[str, Any] = {"clientInfo": {"name": "c", "version": "1"}, "capabilities": {}}
             if case["req"] != "__absent__":
                 params["protocolVersion"] = case["req"]
+            wire_msg: Dict[str, Any] = {"jsonrpc": "2.0", "id": k, "method": "initialize", "params": params}
+            if case.get("params_shape") == "empty":
+                wire_msg["params"] = {}
+            elif case.get("params_shape") == "null":
+                wire_msg["params"] = None
+            elif case.get("params_shape") == "missing":
+                del wire_msg["params"]
             for rep in ("parse",):
-                msg = parse_message({"jsonrpc": "2.0", "id": k, "method": "initialize", "params": params})
+                msg = parse_message(wire_msg)
                 try:
                     resp, sid = await h.handle_message(msg)
                     sess = h.session_manager.get_session(sid) if sid else None
@@ -182,7 +192,8 @@ def run(ctx):
             if not d or "result" not in d:
                 # an error answer is an acceptable way not to acknowledge an unsupported version
                 is_err = bool(d and "error" in d)
-                if (isinstance(req, str) and req in supported) or not is_err:
+                if (isinstance(req, str) and req in supported) or not is_err or req == "__absent__":
+                    # (a request that names no version at all asked for nothing unsupported: it is answered with a version)
                     ctx.violation("no_initialize_result", f"initialize {req!r} answered {d!r}", case)
                 elif d["error"].get("code") == -32603:
                     # "internal error" is what the dispatcher makes of an exception escaping the initialize handler: the
